@@ -268,17 +268,24 @@ def run_vouch(v, tier):
         "system-level traces: beacon node (duties, attestation data), accounts and signer are scripted; wall-clock chain time with "
         "%d ms slots; the trace specification chooses its clock within the bounds the trace gives (no lateness is judged)" % VOUCH_SLOT_MS,
     ]
+    sc = vouch_scenarios(tier)
+    vouch_conformance(v, sc)
+    vouch_race_probe(v)
+
+
+def vouch_model_start(tier):
+    """The exhaustive runs of the composition go on beside everything else of the check."""
     out, neg = {}, {}
     ths = [threading.Thread(target=vouch_model, args=(tier, out)), threading.Thread(target=vouch_model_neg, args=(tier, neg))]
     for th in ths:
         th.start()
-    try:
-        sc = vouch_scenarios(tier)
-        vouch_conformance(v, sc)
-        vouch_race_probe(v)
-    finally:
-        for th in ths:
-            th.join()
+    return ths, out, neg
+
+
+def vouch_model_join(v, started):
+    ths, out, neg = started
+    for th in ths:
+        th.join()
     for o in (out, neg):
         if "err" in o:
             raise o["err"]
@@ -295,6 +302,15 @@ def run(tier):
         "Env_AccountsSubset: the account manager returns accounts of requested validators only",
         "chain time, beacon nodes, account manager, signer and submitter are scripted fakes at the service's interfaces",
     ]
+    started = vouch_model_start(tier)
+    try:
+        return _run(v, tier, started)
+    finally:
+        for th in started[0]:
+            th.join()
+
+
+def _run(v, tier, started):
     v.add_mc(vf.tlc_exhaustive(PID, "MC_Attester", "MC_Attester.cfg"))
     v.add_mc(vf.tlc_exhaustive(PID, "MC_Attester", "MC_Attester_hist.cfg"))
     if tier == "thorough":
@@ -303,6 +319,7 @@ def run(tier):
     vf.conformance(v, sc, driver, TRACE[0], TRACE[1], sig_of, nontrivial, dfs=True,
                    chunk=None if tier == "quick" else 600)
     run_vouch(v, tier)
+    vouch_model_join(v, started)
     v.coverage["rule"] = ("behaviours of Attester.tla generated by TLC simulation (seeded): multi-run histories on one "
                           "service instance (repeated / re-assigned duties, failures at every step), replayed gated "
                           "(interleaved at interface-call grain), free-running (concurrent marking loops) and behind the "
